@@ -129,7 +129,7 @@ def run(ctx):
     for i in range(n):
         case = mc_case(ctx.rng, i)
         cfg = dict(ctx.rng.choice(zoo.CONFIGS)); cfg['min_freq_mod'] = ctx.rng.choice([None, None, cfg['min_freq'], 0.15])
-        if i % 5 == 4: cfg['str_nan'] = 'MISSING'; cfg['str_default'] = 'AUTRES'
+        if i % 3 == 1: cfg['str_nan'] = 'MISSING'; cfg['str_default'] = 'AUTRES'          # custom markers for a third of the frames
         if i % 6 == 3: cfg = dict(min_freq=0.06, sort_by='cramerv', defaults=True, min_freq_mod=None, max_n_mod=5, output_dtype='float', dropna=True)        # optional parameters left to their defaults in both carvers
         specs.append((case, cfg, i))
     for i in range(12 if ctx.tier == 'quick' else 80):
